@@ -1,16 +1,19 @@
 """C20 - covariance kernels are valid positive-definite kernels, scalar and matrix form (DESIGN 4/C20)."""
 LEVEL = "model_checking"
-RULE = ("P1: for the rational quadratic kernel with alpha in {1,2}, variance in {1, 1/4, 3}, length scale in {1, 1/2, 2} and every "
-        "point set of 1..PMax (quick 3, thorough 4) points from {-2, -1, -1/2, 0, 1, 2} TLC checks in exact rationals: symmetric, "
-        "equal to the variance on the diagonal, positive and <= variance, non-increasing in the distance, and positive "
-        "semi-definite by ALL principal minors (pairs of points in general; unit variance/length scale on integer points up to "
-        "3-4 points, where the minors stay within 32-bit integers); P2: per case the exact RQ Gram matrix against a second point "
-        "set of different size (orientation visible) and the RBF exponents d^2/(2 l^2) are emitted; the harness compares the "
-        "scalar forms (by value and by reference) and the matrix forms for Vector, &Vector, Matrix, &Matrix (shape = |X| x |Y|, "
-        "every entry, <= variance), Gram symmetry bit for bit and diagonal = variance; per parameter set incl. the corners "
-        "1/64 and 64 of the parameter box: monotonicity / positivity / symmetry / zero-distance on a distance grid at base "
-        "points 0, -3.5, 999, -1000, matrix form = scalar form on nearby points of magnitude 1e3, parameter validation. "
-        "Case class = (kernel, form, alpha/point-count or magnitude / length-scale class).")
+RULE = ("P1: for the rational quadratic kernel with alpha in {1,2}, variance in {1, 1/4, 3}, length scale in {1, 1/2, "
+        "2} and every point set of 1..PMax (quick 3, thorough 4) points from {-2, -1, -1/2, 0, 1, 2} TLC checks in "
+        "exact rationals: symmetric, equal to the variance on the diagonal, positive and <= variance, non-increasing in"
+        " the distance, and positive semi-definite by ALL principal minors (pairs of points in general; unit "
+        "variance/length scale on integer points up to 3-4 points, where the minors stay within 32-bit integers); P2: "
+        "per case the exact RQ Gram matrix against a second point set of different size (orientation visible) and the "
+        "RBF exponents d^2/(2 l^2) are emitted; the harness compares the scalar forms (by value and by reference) and "
+        "the matrix forms for Vector, &Vector, Matrix, &Matrix (shape = |X| x |Y|, every entry, <= variance), Gram "
+        "symmetry bit for bit and diagonal = variance; per parameter set incl. the corners 1/64 and 64 of the parameter"
+        " box: monotonicity / positivity / symmetry / zero-distance on a distance grid at base points 0, -3.5, 999, "
+        "-1000, matrix form = scalar form on nearby points of magnitude 1e3, parameter validation. Mixture parameter "
+        "1/2 on Pythagorean distances and 3/2 on d/l in {0, 3, 12} (exact square roots), non-integer mixture parameters"
+        " 3/2, 5/2, 7/10, 19/8 in the relational grid. Case class = (kernel, form, alpha/point-count or magnitude / "
+        "length-scale class).")
 ASSUMPTIONS = ["exp is the scalar oracle for RBF (the spec fixes its exponent); PSD of RBF Gram matrices is implied by conformance to the formula, not certified separately",
                "exact PSD minors limited by 32-bit integers to the stated sub-domain"]
 EXHAUSTIVE = True
